@@ -2693,3 +2693,9 @@ func isFieldOrGetter(key string) func(ssa.Value) bool {
 		return isResultOfCall(v, 0, getter) != nil
 	}
 }
+
+// isRetInstr: in is a return.
+func isRetInstr(in ssa.Instruction) bool {
+	_, ok := in.(*ssa.Return)
+	return ok
+}
